@@ -108,7 +108,9 @@ def _load_offsets(cache_path, current_hash):
             ) = pickle.load(file)
             if current_hash is None or current_hash == serialized_hash:
                 return
-    except (FileNotFoundError, ValueError, TypeError):
+    except Exception:
+        # A missing, empty, truncated or otherwise unreadable cache (e.g. left
+        # behind by an interrupted write) is rebuilt below.
         pass
 
     _search_regex_parts = []
@@ -116,12 +118,23 @@ def _load_offsets(cache_path, current_hash):
     _search_regex = re.compile("|".join(_search_regex_parts))
     _search_regex_ignorecase = re.compile("|".join(_search_regex_parts), re.IGNORECASE)
 
-    with open(cache_path, mode="wb") as file:
-        pickle.dump(
-            (current_hash, _tz_offsets, _search_regex, _search_regex_ignorecase),
-            file,
-            protocol=5,
-        )
+    # Write to a temporary sibling and rename it into place, so that neither a
+    # crash nor a concurrent import can ever observe a partially written cache.
+    tmp_path = "%s.%d.tmp" % (cache_path, os.getpid())
+    try:
+        with open(tmp_path, mode="wb") as file:
+            pickle.dump(
+                (current_hash, _tz_offsets, _search_regex, _search_regex_ignorecase),
+                file,
+                protocol=5,
+            )
+        os.replace(tmp_path, cache_path)
+    except OSError:
+        # The cache is only an optimisation (read-only or full file system).
+        try:
+            os.remove(tmp_path)
+        except OSError:
+            pass
 
 
 CACHE_PATH = Path(__file__).parent.joinpath("data", "dateparser_tz_cache.pkl")
